@@ -62,30 +62,6 @@ func mockName(iface string) string {
 var aliasRe = regexp.MustCompile(`[^A-Za-z0-9]`)
 
 // typeArgs returns admissible type-argument tuples for a generic interface.
-func typeArgs(it *progen.Iface) [][]progen.Ty {
-	if len(it.TParams) == 0 {
-		return [][]progen.Ty{nil}
-	}
-	var out [][]progen.Ty
-	for variant := 0; variant < 3; variant++ {
-		var tuple []progen.Ty
-		for i, tp := range it.TParams {
-			c := progen.FindConstraint(tp.Constraint)
-			switch {
-			case c.Key == "dep-slice":
-				prev := tuple[i-1]
-				tuple = append(tuple, progen.Ty{K: "slice", Elem: &prev})
-			case c.Key == "dep-generic":
-				prev := tuple[i-1]
-				tuple = append(tuple, progen.Ty{K: "named", Pkg: "alpha", Name: "GI", Args: []progen.Ty{prev}})
-			default:
-				tuple = append(tuple, c.Args[(variant+i)%len(c.Args)])
-			}
-		}
-		out = append(out, tuple)
-	}
-	return out
-}
 
 func localIfaces(m *progen.Module) []progen.Iface {
 	out := []progen.Iface{
@@ -159,7 +135,7 @@ func run(c Case) *vh.Violation {
 			if !it.Exported() && !c.R.InPackage() {
 				continue // not nameable from here
 			}
-			for _, tuple := range typeArgs(it) {
+			for _, tuple := range genericArgs(it) {
 				inst := ""
 				if len(tuple) > 0 {
 					parts := make([]string, len(tuple))
@@ -357,4 +333,11 @@ func reduce(c Case) []Case {
 
 func TestProp(t *testing.T) {
 	vh.Main(t, vh.Check[Case]{Gen: gen, Run: run, Reduce: reduce})
+}
+
+func genericArgs(it *progen.Iface) [][]progen.Ty {
+	if len(it.TParams) == 0 {
+		return [][]progen.Ty{nil}
+	}
+	return progen.TypeArgs(it, 3)
 }
